@@ -282,6 +282,158 @@ pub fn c01_special(rec: &mut Rec) {
     });
 }
 
+
+/// Size ladder for the three special APIs (C01 slice E): KZG10 direct and streaming KZG around every power of two up
+/// to 128 (512 thorough), MultilinearPC for 6 and 8 (10) variables, the true claim accepted and the claim + 1 not.
+pub fn c01_special_ladder(rec: &mut Rec) {
+    let sizes = crate::checks::c01::ladder_sizes(rec.thorough());
+    let top = *sizes.iter().max().unwrap();
+    rec.scope(format!("KZG direct / STR: slice E size ladder {:?}; MLP nv in {:?}", sizes, if rec.thorough() { vec![6, 8, 10] } else { vec![6, 8] }));
+    let pp = kzg_setup(top + 3, false, rec.seed, 0);
+    let vk = kzg_vk(&pp);
+    let ck = str_key(top + 1, 3, rec.seed);
+    let svk = SVk::from(&ck);
+    let pts = crate::sch::uni_points::<Fr381>(rec.seed);
+    let r = rho_stream::<Fr381>(rec.seed, 1, top + 2);
+    for s in sizes {
+        let mut shapes: Vec<(String, UP<Fr381>)> = Vec::new();
+        shapes.push((format!("dense({})", s), UP::<Fr381>::from_coefficients_vec(r[..=s].to_vec())));
+        shapes.push((format!("dense({})", s - 1), UP::<Fr381>::from_coefficients_vec(r[..s].to_vec())));
+        let mut c = r[..=s].to_vec();
+        c[0] = Fr381::zero();
+        c[1] = Fr381::zero();
+        shapes.push((format!("lowzero({})", s), UP::<Fr381>::from_coefficients_vec(c)));
+        let mut c = vec![Fr381::zero(); s + 1];
+        c[s] = Fr381::one();
+        shapes.push((format!("top({})", s), UP::<Fr381>::from_coefficients_vec(c)));
+        let mut c = r[..=s].to_vec();
+        for i in 0..=s {
+            if i % 3 == 1 {
+                c[i] = Fr381::zero();
+            }
+        }
+        shapes.push((format!("sparse3({})", s), UP::<Fr381>::from_coefficients_vec(c)));
+        for (sname, p) in shapes.iter() {
+            let deg = p.degree();
+            for h in [None, Some(1usize), Some(deg)] {
+                for extra in [0usize, 2] {
+                    for (zn, z) in pts.iter().take(2) {
+                        let id = format!("KZG/E/{}/h={:?}/len=deg+{}/z={}", sname, h, 1 + extra, zn);
+                        if !rec.take(&id) {
+                            continue;
+                        }
+                        rec.dim("scheme", "KZG");
+                        rec.dim("slice", "E");
+                        let powers = kzg_powers(&pp, deg + 1 + extra, h.map(|x| x + 2).unwrap_or(1));
+                        let mut rng = seed_rng(rec.seed, 0);
+                        let (comm, rand) = match flat(catch(|| Kzg::commit(&powers, p, h, Some(&mut rng as &mut dyn RngCore)))) {
+                            Ok(x) => x,
+                            Err(o) => {
+                                rec.violation("C01/KZG/commit/in-domain", &id, format!("commit failed: {}", o.short()));
+                                continue;
+                            }
+                        };
+                        let proof = match flat(catch(|| Kzg::open(&powers, p, *z, &rand))) {
+                            Ok(x) => x,
+                            Err(o) => {
+                                rec.violation("C01/KZG/open/in-domain", &id, format!("open failed: {}", o.short()));
+                                continue;
+                            }
+                        };
+                        rec.op(4);
+                        let v = p.evaluate(z);
+                        let d = kzg_check(&vk, &comm, *z, v, &proof);
+                        rec.class(d.class());
+                        if !d.accepted() {
+                            rec.violation("C01/KZG/check/honest", &id, format!("honest proof not accepted: {}", d.short()));
+                        }
+                        let d = kzg_check(&vk, &comm, *z, v + Fr381::one(), &proof);
+                        if d.accepted() {
+                            rec.violation("C01/KZG/check/ladder-false-claim-accepted", &id, "value + 1 accepted".into());
+                        }
+                    }
+                }
+            }
+            for (zn, z) in pts.iter().take(2) {
+                let id = format!("STR/E/{}/z={}", sname, zn);
+                if !rec.take(&id) {
+                    continue;
+                }
+                rec.dim("scheme", "STR");
+                rec.dim("slice", "E");
+                match catch(|| (ck.commit(&p.coeffs), ck.open(&p.coeffs, z))) {
+                    Ok((comm, (value, proof))) => {
+                        rec.op(4);
+                        if value != p.evaluate(z) {
+                            rec.violation("C01/STR/open/evaluation", &id, "open returned a wrong evaluation".into());
+                        }
+                        let d = str_verify(&svk, &comm, z, &value, &proof);
+                        rec.class(d.class());
+                        if !d.accepted() {
+                            rec.violation("C01/STR/verify/honest", &id, format!("honest proof not accepted: {}", d.short()));
+                        }
+                        let d = str_verify(&svk, &comm, z, &(value + Fr381::one()), &proof);
+                        if d.accepted() {
+                            rec.violation("C01/STR/verify/ladder-false-claim-accepted", &id, "value + 1 accepted".into());
+                        }
+                    }
+                    Err(e) => rec.violation("C01/STR/commit-open/in-domain", &id, format!("panicked: {}", e)),
+                }
+            }
+        }
+    }
+    for nv in if rec.thorough() { vec![6usize, 8, 10] } else { vec![6usize, 8] } {
+        let mut todo = Vec::new();
+        for tnv in [nv - 1, nv] {
+            for (sname, p) in ml_shapes::<Fr381>(tnv, rec.seed) {
+                for (zn, z) in ml_points::<Fr381>(tnv, rec.seed).into_iter().take(3) {
+                    let id = format!("MLP/E/nv={}/trim={}/{}/z={}", nv, tnv, sname, zn);
+                    if rec.take(&id) {
+                        todo.push((id, tnv, p.clone(), z));
+                    }
+                }
+            }
+        }
+        if todo.is_empty() {
+            continue;
+        }
+        let mut rng = seed_rng(rec.seed, 10);
+        let pp = match catch(|| Mlp::setup(nv, &mut rng)) {
+            Ok(p) => p,
+            Err(e) => {
+                rec.violation("C01/MLP/setup/in-domain", &todo[0].0, format!("setup panicked: {}", e));
+                continue;
+            }
+        };
+        for (id, tnv, p, z) in todo {
+            rec.dim("scheme", "MLP");
+            rec.dim("slice", "E");
+            let r = catch(|| {
+                let (ck, vk) = Mlp::trim(&pp, tnv);
+                let c = Mlp::commit(&ck, &p);
+                let pf = Mlp::open(&ck, &p, &z);
+                (vk, c, pf)
+            });
+            match r {
+                Ok((vk, comm, proof)) => {
+                    rec.op(5);
+                    let v = p.evaluate(&z);
+                    let d = mlp_check(&vk, &comm, &z, v, &proof);
+                    rec.class(d.class());
+                    if !d.accepted() {
+                        rec.violation("C01/MLP/check/honest", &id, format!("honest proof not accepted: {}", d.short()));
+                    }
+                    let d = mlp_check(&vk, &comm, &z, v + Fr381::one(), &proof);
+                    if d.accepted() {
+                        rec.violation("C01/MLP/check/ladder-false-claim-accepted", &id, "value + 1 accepted".into());
+                    }
+                }
+                Err(e) => rec.violation("C01/MLP/commit-open/in-domain", &id, format!("panicked: {}", e)),
+            }
+        }
+    }
+}
+
 fn c02_expect(rec: &mut Rec, d: &Dec, sch: &str, entry: &str, op: &str, id: &str, detail: String) {
     rec.count_points(1);
     rec.op(1);
